@@ -16,7 +16,7 @@ Extraction "model.ml"
   Spec.C10Check.check_read_auth2 Spec.C10Check.auth2_decodes Spec.C10Check.check_read_wincert
   Spec.C10Check.wincert_decodes Spec.C10Check.check_write_auth2
   Spec.SigCheck.check_c07 Spec.SigCheck.check_c07_built Spec.SigCheck.check_c08 Spec.SigCheck.decodes Spec.SigCheck.decodes_any
-  Spec.SigCheck.run_history
+  Spec.SigCheck.run_history Spec.SigCheck.run_list_history
   Spec.VarCheck.check_write Spec.VarCheck.check_write_short Spec.VarCheck.check_read Spec.VarCheck.check_read_legacy Spec.VarCheck.run_store
   Spec.DevCheck.check_boot_order Spec.DevCheck.check_load_option Spec.DevCheck.load_option_decodes
   Spec.DevCheck.check_hd_text Spec.DevCheck.check_file_text Model.Device.parse_device_path
